@@ -281,6 +281,7 @@ class Prop:
         all_cases = corpus + gen
         cases, impl_bs = [], []
         failures = []      # (case, impl behaviour, reason)
+        harness_errors = []
         for c in all_cases:
             # an exception the harness of the property does not expect is an outcome outside every documented one:
             # reported with the input as replay, never a crash of the check
@@ -290,11 +291,18 @@ class Prop:
                 import traceback
                 tb = traceback.extract_tb(e.__traceback__)
                 where = next((f"{fr.filename}:{fr.lineno}" for fr in reversed(tb) if "/repo/" in fr.filename), "")
+                if tb and "/repo/" not in tb[-1].filename and "/verif/" in tb[-1].filename and isinstance(e, (AttributeError, ImportError, KeyError, TypeError)):
+                    # raised by the harness's own code (it can no longer observe the implementation, e.g. an internal name it reads
+                    # is gone): the correspondence is broken, that is not a failing input of the property
+                    harness_errors.append(f"{type(e).__name__}: {str(e)[:160]} at {tb[-1].filename}:{tb[-1].lineno}")
+                    continue
                 failures.append((c, {"unexpected_exception": type(e).__name__, "text": str(e)[:200], "where": where},
                                  f"the implementation raised {type(e).__name__} ({where}) where the harness expects none"))
                 continue
             cases.append(c)
             impl_bs.append(b)
+        if harness_errors:
+            broken.append(f"correspondence harness cannot observe the implementation on {len(harness_errors)} case(s): " + harness_errors[0])
         disagreements = []
         model_bs = [None] * len(cases)
         spec_ok = [True] * len(cases)
